@@ -37,7 +37,13 @@ def run_property(prop: str, tier: str, seed: int, only_key: str = None, quiet: b
         pack = load_pack(prop)
         explanation = getattr(pack, "EXPLANATION", "")
         prog = Program(root)
+        from .inline import normalise
+
+        prog, inlined = normalise(prog)
         ctx.prog = prog
+        if inlined:
+            ctx.extra["normalisation"] = {"inlined_helpers": inlined}
+            ctx.note("helpers inlined before the rules ran (A9): " + ", ".join(inlined))
         pack.check(ctx)
         if tier == "thorough" and hasattr(pack, "check_thorough"):
             pack.check_thorough(ctx)
